@@ -3,6 +3,7 @@
 -/
 import Oracle.Core
 import D128.Spec.Arith
+import D128.Spec.Bid
 
 namespace Oracle
 open Go Spec
@@ -103,6 +104,79 @@ def specList : List (String × SpecFn) := [
       | some s => some (expectTok (r.getD 0 "") (toString s)))
 ]
 
-def specTable : SpecTable := specList.foldl (fun m (k, v) => m.insert k v) {}
+def decInt (s : String) : Option Int := s.toInt?
+
+def unaryVal (f : Val → Val) : SpecFn := fun _ a r => do
+  let x ← decDec (a.getD 0 "")
+  some (expectVal (decDec (r.getD 0 "")) (f x))
+
+def satSpec (lo hi : Int) : SpecFn := fun _ a r => do
+  let x ← decDec (a.getD 0 "")
+  match sat lo hi x with
+  | none => some (expectTok (r.getD 0 "") "PANIC:explicit")
+  | some (v, ok) => some (expectTok (s!"{r.getD 0 ""} {r.getD 1 ""}") s!"{v} {boolTok ok}")
+
+def fromIntSpec : SpecFn := fun _ a r => do
+  let i ← decInt (a.getD 0 "")
+  some (expectVal (decDec (r.getD 0 "")) (fromInt i))
+
+def specList2 : List (String × SpecFn) := [
+  ("Decimal.Round", fun _ a r => do
+      let x ← decDec (a.getD 0 ""); let dp ← decInt (a.getD 1 "")
+      match modeOf (a.getD 2 "") with
+      | none => none
+      | some m => some (expectVal (decDec (r.getD 0 "")) (quantize dp m x))),
+  ("Decimal.Ceil", fun _ a r => do
+      let x ← decDec (a.getD 0 ""); let dp ← decInt (a.getD 1 "")
+      some (expectVal (decDec (r.getD 0 "")) (ceilDp dp x))),
+  ("Decimal.Floor", fun _ a r => do
+      let x ← decDec (a.getD 0 ""); let dp ← decInt (a.getD 1 "")
+      some (expectVal (decDec (r.getD 0 "")) (floorDp dp x))),
+  ("Round", unaryVal (quantize 0 .nearestAway)),
+  ("Trunc", unaryVal (quantize 0 .toZero)),
+  ("Ceil", unaryVal (ceilDp 0)),
+  ("Floor", unaryVal (floorDp 0)),
+  ("New", fun g a r => do
+      let sig ← decInt (a.getD 0 ""); let e ← decInt (a.getD 1 "")
+      let want := newVal .nearestEven sig e
+      -- the property fixes nearest-even; under another DefaultRoundingMode only exact cases are claimed
+      if g.DefaultRoundingMode == 0 || want.same (newVal .toZero sig e) && want.same (newVal .awayFromZero sig e)
+      then some (expectVal (decDec (r.getD 0 "")) want) else none),
+  ("Ldexp", fun g a r => do
+      let x ← decDec (a.getD 0 ""); let e ← decInt (a.getD 1 "")
+      let want := ldexp .nearestEven x e
+      if g.DefaultRoundingMode == 0 || want.same (ldexp .toZero x e) && want.same (ldexp .awayFromZero x e)
+      then some (expectVal (decDec (r.getD 0 "")) want) else none),
+  ("Frexp", fun _ a r => do
+      let x ← decDec (a.getD 0 "")
+      let (f, e) := frexp x
+      match expectVal (decDec (r.getD 0 "")) f with
+      | some m => some (some m)
+      | none => some (expectTok (r.getD 1 "") (toString e))),
+  ("Decimal.Int64_", satSpec (-(2^63)) (2^63 - 1)),
+  ("Decimal.Int32_", satSpec (-(2^31)) (2^31 - 1)),
+  ("Decimal.Uint64", satSpec 0 (2^64 - 1)),
+  ("Decimal.Uint32", satSpec 0 (2^32 - 1)),
+  ("FromInt64", fromIntSpec), ("FromInt32", fromIntSpec), ("FromUint64", fromIntSpec), ("FromUint32", fromIntSpec),
+  ("Decimal.Canonical", fun _ a r => do
+      let x ← decDec (a.getD 0 "")
+      let (lo, hi) := canonical x
+      some (expectTok (r.getD 0 "") (Codec.hex16 hi ++ Codec.hex16 lo))),
+  ("Decimal.MarshalBinary", fun _ a r => do
+      let x ← decDec (a.getD 0 "")
+      let b ← Codec.decBytes (r.getD 0 "")
+      if r.getD 1 "" != "nil" then some (some "error returned") else
+      match bidDecode b with
+      | none => some (some s!"not 16 bytes: {b.size}")
+      | some v => some (if v.same x then none else some s!"BID decoder reads {showVal v}, library value {showVal x}")),
+  ("Decimal.UnmarshalBinary", fun _ a r => do
+      let b ← Codec.decBytes (a.getD 1 "")
+      if b.size == 16 then
+        let hi := Codec.hexN 16 (beNat (b.extract 0 8)); let lo := Codec.hexN 16 (beNat (b.extract 8 16))
+        some (expectTok s!"{r.getD 0 ""} {r.getD 1 ""}" s!"{hi}{lo} nil")
+      else some (expectTok s!"{r.getD 0 ""} {r.getD 1 ""}" s!"{a.getD 0 ""} errorsNew"))
+]
+
+def specTable : SpecTable := (specList ++ specList2).foldl (fun m (k, v) => m.insert k v) {}
 
 end Oracle
